@@ -140,3 +140,43 @@ func hasBetween(loc gts.Location) bool {
 }
 
 func joinStrings(ss []string) string { return strings.Join(ss, " | ") }
+
+// manyPartLocs: structured locations of `parts` parts (single residues and two-residue ranges separated by
+// one-residue gaps) over L residues: ascending join, order, complement of the join, a join listed in descending
+// order, alternating strands, outer partial markers.  Part-count dimension of the location checks: the
+// small-scope domains stop at 3-5 parts.
+func manyPartLocs(parts int) (L int, locs []gts.Location) {
+	var asc []gts.Location
+	pos := 1
+	for k := 0; k < parts; k++ {
+		ln := 1 + k%2
+		if ln == 1 {
+			asc = append(asc, gts.Point(pos))
+		} else {
+			asc = append(asc, gts.Range(pos, pos+ln))
+		}
+		pos += ln + 1
+	}
+	L = pos + 1
+	cp := func(xs []gts.Location) []gts.Location { return append([]gts.Location(nil), xs...) }
+	desc := make([]gts.Location, len(asc))
+	alt := make([]gts.Location, len(asc))
+	for k, a := range asc {
+		desc[len(asc)-1-k] = a
+		alt[k] = a
+		if k%2 == 1 {
+			alt[k] = gts.Complemented{Location: a}
+		}
+	}
+	flagged := cp(asc)
+	if r, ok := flagged[1].(gts.Ranged); ok {
+		_ = r
+	}
+	flagged[0] = gts.PartialRange(0, 2, gts.Partial5)
+	flagged[len(flagged)-1] = gts.PartialRange(L-3, L-1, gts.Partial3)
+	locs = []gts.Location{
+		gts.Join(cp(asc)...), gts.Order(cp(asc)...), gts.Complemented{Location: gts.Join(cp(asc)...)},
+		gts.Join(desc...), gts.Join(alt...), gts.Join(flagged...), gts.Complemented{Location: gts.Order(flagged...)},
+	}
+	return L, locs
+}
